@@ -81,6 +81,7 @@ def gen_case(g, tier, idx):
     seq = ["kfpv", str(n), "1" if exo else "0", str(ncalls)]
     singles = []
     varied = nskip = handed = 0
+    wmodes = {}
     for c in range(ncalls):
         if c > 0 and r.random() < 0.6:
             F2, Q2 = gen_FQ(g, style, n)
@@ -120,9 +121,13 @@ def gen_case(g, tier, idx):
         toks = [hexd(means[c2][i]) for c2 in range(k) for i in range(n)]
         toks += [hexd(Ps[c2][i][j]) for c2 in range(k) for j in range(n) for i in range(n)]
         toks += [hexd(r.uniform(0.01, 1.0)) for _ in range(k)]
-        seq += [str(hand)] + head + [str(len(hist))] + [str(x) for cmd in hist for x in cmd] + [str(k)] + toks
+        # weights of the belief passed in: default / exact zeros / un-normalised / tiny / negative (the
+        # update of a component may not depend on its weight)
+        wmode = r.choice([0, 0, 1, 2, 3, 4, 5, 6, 7]) if k > 1 else r.choice([0, 0, 3, 4])
+        wmodes[wmode] = wmodes.get(wmode, 0) + 1
+        seq += [str(hand)] + head + [str(len(hist))] + [str(x) for cmd in hist for x in cmd] + [str(wmode), str(k)] + toks
         singles.append(" ".join(["kfp", str(n), str(k), "1" if exo else "0"] + head + toks))
-    return " ".join(seq), singles, {"style": style, "n": n, "exo": exo, "calls": ncalls, "model_changes": varied, "skip_commands": nskip, "hand_overs": handed}
+    return " ".join(seq), singles, {"style": style, "n": n, "exo": exo, "calls": ncalls, "model_changes": varied, "skip_commands": nskip, "hand_overs": handed, "wmodes": wmodes}
 
 
 def split_seq_output(hout, ncalls):
@@ -228,6 +233,7 @@ def replay_case(path):
             p += 1                                   # hand-over flag
             head = t[p:p + hl]; p += hl
             ns = int(t[p]); p += 1 + 2 * ns
+            p += 1                                   # weight mode of the belief passed in
             k = int(t[p]); p += 1
             ln = n * k + n * n * k + k
             singles.append(" ".join(["kfp", str(n), str(k), "1" if exo else "0"] + head + t[p:p + ln])); p += ln
@@ -280,13 +286,17 @@ def run(ctx):
         ctx.violation("correspondence:" + key2, "model and implementation disagree (%d cases), no property predicate failed: %s" % (len(corr_bad), what),
                       {"harness": "h_kf", "correspondence": "kfPredict vs KFPrediction::predictStep", "input_line": line, "observed": h[:2000]}, no_input=True)
     nontrivial = sum(1 for sl in distinct if int(sl.split()[1]) > 1 or int(sl.split()[2]) > 1)
+    wm = {}
+    for c_ in cases:
+        for k_, v_ in (c_[2].get("wmodes") or {}).items():
+            wm[str(k_)] = wm.get(str(k_), 0) + v_
     ctx.coverage.update({
         "evaluations": len(singles), "distinct_nontrivial": nontrivial,
         "rule": "KFPrediction objects over a time-varying linear model (F, Q, exogenous law may change between calls) used for 1..3 successive predict() calls (new component count per call), each preceded by a skip-command history ending with nothing skipped; near-duplicate consecutive components (cond up to 1e14); n in 1..%d, k in {1,2,3,4,6}; arbitrary F incl. zero/"
                 "triangular/symmetric/diagonal/identity/orthogonal, PSD P and Q incl. singular, with/without exogenous model u = G x + g; "
                 "non-trivial = n > 1 or k > 1; distinct = distinct single-call inputs" % (6 if ctx.quick() else 9),
         "samples": [cases[0][0][:400], cases[-1][0][:400]],
-        "style_histogram": hist, "numeric": stats, "objects": len(cases),
+        "input_weight_modes (0 default, 1 first zero, 2 last zero, 3 all zero, 4 un-normalised, 5 tiny, 6 one negative, 7 one-hot)": wm, "style_histogram": hist, "numeric": stats, "objects": len(cases),
         "traces_validated_against_impl": len(singles),
         "model_vs_impl_disagreements": len(corr_bad), "property_failures_on_impl": len(prop_bad),
         "sanitizer_crashes": len(logs),
